@@ -271,18 +271,58 @@ func (g *gen) policyChainTemplates() error {
 	}
 	g.emit("def plcySetRules : List Tok := %s", leanToks(t))
 	var guards []string
+	chunk := int64(-1) // -1 = not seen yet, 0 = no chunking (one rule per protocol), n = chunks of at most n ports
 	for i, name := range []string{"plcyTcp", "plcyUdp", "plcyAll"} {
-		is, ok := inner.Body.List[i+1].(*ast.IfStmt)
-		if !ok || is.Else != nil || is.Init != nil {
-			return fmt.Errorf("writePolicyChainRules: statement %d of the inner loop is not a plain if", i+1)
+		var body *ast.BlockStmt
+		switch st := inner.Body.List[i+1].(type) {
+		case *ast.IfStmt:
+			if st.Else != nil || st.Init != nil {
+				return fmt.Errorf("writePolicyChainRules: statement %d of the inner loop is not a plain if", i+1)
+			}
+			guards = append(guards, g.p.Src(st.Cond))
+			body = st.Body
+			if i < 2 {
+				if chunk > 0 {
+					return fmt.Errorf("writePolicyChainRules: tcp and udp templates are not of the same shape")
+				}
+				chunk = 0
+			}
+		case *ast.ForStmt:
+			// for i := 0; i < len(ports); i += <const> { end := i + <const>; if end > len(ports) { end = len(ports) }; <template> }
+			if i >= 2 {
+				return fmt.Errorf("writePolicyChainRules: the port-less template is not expected in a loop")
+			}
+			ports := []string{"tcpPorts", "udpPorts"}[i]
+			hdr := strings.Join(strings.Fields("for "+g.p.Src(st.Init)+"; "+g.p.Src(st.Cond)+"; "+g.p.Src(st.Post)), " ")
+			if hdr != "for i := 0; i < len("+ports+"); i += maxMultiportPorts" || len(st.Body.List) < 3 {
+				return fmt.Errorf("writePolicyChainRules: chunk loop header changed: %s", hdr)
+			}
+			s0 := strings.Join(strings.Fields(g.p.Src(st.Body.List[0])), " ")
+			s1 := strings.Join(strings.Fields(g.p.Src(st.Body.List[1])), " ")
+			if s0 != "end := i + maxMultiportPorts" || s1 != "if end > len("+ports+") { end = len("+ports+") }" {
+				return fmt.Errorf("writePolicyChainRules: chunk bounds changed: %s / %s", s0, s1)
+			}
+			n, err := g.p.ConstInt("maxMultiportPorts")
+			if err != nil {
+				return err
+			}
+			if chunk == 0 || (chunk > 0 && chunk != n) || n <= 0 {
+				return fmt.Errorf("writePolicyChainRules: tcp and udp templates are not of the same shape")
+			}
+			chunk = n
+			guards = append(guards, hdr)
+			body = &ast.BlockStmt{List: st.Body.List[2:]}
+		default:
+			return fmt.Errorf("writePolicyChainRules: statement %d of the inner loop is neither an if nor a chunk loop", i+1)
 		}
-		guards = append(guards, g.p.Src(is.Cond))
-		t, err := g.argsBlock(is.Body)
+		t, err := g.argsBlock(body)
 		if err != nil {
 			return err
 		}
 		g.emit("def %s : List Tok := %s", name, leanToks(t))
 	}
+	g.emit("-- ports per emitted rule: 0 = all ports of a protocol in ONE rule, n = chunks of at most n (multiport takes 15)")
+	g.emit("def multiportChunk : Nat := %d", chunk)
 	g.emit("def plcyGuards : List String := %s", leanStrs(guards))
 	return nil
 }
